@@ -12,7 +12,9 @@
 
   Write scripts covered: any finite list of `write` calls (empty chunks included, no seeks, no
   intermediate `flush`), then drop.  For `createClear` the marker path is arbitrary (it may even
-  be the file itself).
+  be the file itself).  `clearT` (the tolerant clearing of a marker by `OverlayFS::create_dir`
+  after the fix of O11, `leaf_clearT`): after a positive probe neither backend answers
+  `FileNotFound`, so the tolerance is never exercised on a leaf.
 
   NOT PROVED here: see the header of Proofs/ClassSim.lean.
 -/
@@ -874,6 +876,62 @@ theorem leaf_appendSession (i : Nat) (p : Str) (hp : Canon p) (s : List Bytes) :
     · rw [hm, hph]
       exact ⟨.err hk, hr⟩
 
+/-- the tolerant clearing of a marker (`clear_whiteout` of `OverlayFS::create_dir`, fix of O11):
+after a positive probe neither backend answers `FileNotFound` (memory: `Ok` or `Other`; host: `Ok`
+or `IoError`), so nothing is swallowed on either side and the removal is `removeFile_rel` -/
+theorem leaf_clearT (i : Nat) (q : Str) :
+    CSim RCore KRel (· = ·) (clearAtT (leafFS i) q) (clearAtT (leafFS i) q) := by
+  intro w1 w2 hr
+  unfold clearAtT
+  rw [bind_eval, bind_eval]
+  rcases hr.at i with ⟨e1, e2⟩ | ⟨a, b, e1, e2, hab⟩
+  · rw [show (leafFS i).exists_ q = onLeaf i _ from rfl, onLeaf_none e1, onLeaf_none e2]
+    exact ⟨.panic, hr⟩
+  · have x2 : (leafFS i).exists_ q w2 = (.ok (Phys.exists_ b q), w2) := by
+      rw [show (leafFS i).exists_ q = onLeaf i _ from rfl, onLeaf_eq e2]
+      simp only
+      rw [World.setLeafFiles_self w2 i _ e2]
+    rw [run_exists e1 q, x2, ← exists_rel hab q]
+    simp only
+    by_cases hc : a.contains q = true
+    · rw [if_pos hc]
+      unfold tolerate
+      have y2 : (leafFS i).removeFile q w2 =
+          ((Phys.removeFile b q).1, w2.setLeafFiles i (Phys.removeFile b q).2) := by
+        rw [show (leafFS i).removeFile q = onLeaf i _ from rfl, onLeaf_eq e2]
+      rw [run_removeFile e1 q, y2]
+      obtain ⟨hres, hok⟩ := removeFile_rel hab q
+      have hr' := hr.set e1 e2 hok
+      -- neither side answers not-found
+      obtain ⟨e, hf⟩ : ∃ e, a.find? q = some e := by
+        unfold FMap.contains at hc
+        rcases Option.eq_none_or_eq_some (a.find? q) with h | ⟨e, h⟩
+        · rw [h] at hc; cases hc
+        · exact ⟨e, h⟩
+      obtain ⟨e', h1, h2, h3, hl⟩ := phys_present hab hf
+      have n1 : ∀ pth, (Mem.removeFile a q).1 ≠ .err .fileNotFound pth := by
+        intro pth
+        unfold Mem.removeFile
+        simp only [hf]
+        split <;> simp [fail]
+      have n2 : ∀ pth, (Phys.removeFile b q).1 ≠ .err .fileNotFound pth := by
+        intro pth
+        unfold Phys.removeFile
+        simp only [hl]
+        split <;> simp [fail]
+      generalize (Mem.removeFile a q).1 = r1 at hres n1 ⊢
+      generalize (Phys.removeFile b q).1 = r2 at hres n2 ⊢
+      cases hres with
+      | ok hq => exact ⟨.ok (by first | rfl | trivial), hr'⟩
+      | panic => exact ⟨.panic, hr'⟩
+      | @err k1 k2 p1 p2 hk =>
+        have m1 : k1 ≠ .fileNotFound := fun h => n1 p1 (by rw [h])
+        have m2 : k2 ≠ .fileNotFound := fun h => n2 p2 (by rw [h])
+        cases k1 <;> cases k2 <;>
+          first | exact absurd rfl m1 | exact absurd rfl m2 | exact ⟨.err hk, hr'⟩
+    · rw [if_neg hc]
+      exact ⟨.ok (by first | rfl | trivial), hr⟩
+
 /-- **the instance**: memory leaf `i` and physical leaf `i` with the same content are related at
 the session level, write-layer capable -/
 theorem leaf_simW (i : Nat) : SimW RCore (leafFS i) (leafFS i) where
@@ -898,5 +956,6 @@ theorem leaf_simW (i : Nat) : SimW RCore (leafFS i) (leafFS i) where
           createOnly := fun p hp => leaf_createOnly i p hp,
           createSession := fun p s hp => leaf_createSession i p hp s } q hq)
       (clearAt_frame i p q) s
+  clearT q _ := leaf_clearT i q
 
 end Vfs.C02
